@@ -72,6 +72,13 @@ var c14Differential = []struct {
 	{"WITH c AS (SELECT id, %Q%fx(1, a) AS v FROM t) SELECT DISTINCT v FROM c", true},
 	{"WITH c AS (SELECT id, %Q%fx(1, a) AS v FROM t) SELECT id, v FROM c ORDER BY v DESC, id", false},
 	{"SELECT * FROM (SELECT DISTINCT %Q%fx(1, a) AS v FROM t) d", true},
+	// the outer query's own clauses read the column of a derived table
+	{"SELECT d.v AS v FROM (SELECT id, %Q%fx(1, a) AS v FROM t) d WHERE d.v > 1005", false},
+	{"SELECT SUM(d.v) AS s, COUNT(*) AS c FROM (SELECT %Q%fx(1, a) AS v FROM t) d", false},
+	{"SELECT d.v AS v, COUNT(*) AS c FROM (SELECT %Q%fx(1, a) AS v FROM t) d GROUP BY d.v", false},
+	{"SELECT d.id AS id FROM (SELECT id, %Q%fx(1, a) AS v FROM t) d WHERE d.v IN (1000, 1020)", false},
+	{"WITH c AS (SELECT id, %Q%fx(1, a) AS v FROM t) SELECT id FROM c WHERE v >= 1010", false},
+	{"WITH c AS (SELECT %Q%fx(1, a) AS v FROM t) SELECT v, COUNT(*) AS n FROM c GROUP BY v", false},
 }
 
 func genC14Differential(t *rapid.T) *Bundle {
@@ -423,6 +430,7 @@ func genC14(t *rapid.T) *Bundle {
 	place := rapid.SampledFrom([]string{"top", "derived_star", "cte", "subquery", "derived_cols", "subquery_in_derived", "subquery_in_cte", "union_branch", "exists", "cte_chain", "grid"}).Draw(t, "place")
 	// the calls sit in a row-scoped subquery (possibly itself nested in a derived table / CTE)
 	inSub := strings.HasPrefix(place, "subquery") || place == "exists"
+	ragged := false
 	rows := make([]any, 0, nrows)
 	for i := 0; i < nrows; i++ {
 		r := map[string]any{
@@ -547,6 +555,11 @@ func genC14(t *rapid.T) *Bundle {
 			}
 			g = append(g, append([]any{}, rows[i:end]...))
 		}
+		// ragged: a source that mixes arrays and objects - the last row stands alone, as an object
+		ragged = len(rows)%2 == 1 && len(rows) > 1 && rapid.Bool().Draw(t, "ragged")
+		if ragged {
+			g[len(g)-1] = rows[len(rows)-1]
+		}
 		doc["g"] = g
 	case "derived_star":
 		query = fmt.Sprintf("SELECT * FROM (SELECT %s FROM t%s) d", selSQL, where)
@@ -659,6 +672,11 @@ func genC14(t *rapid.T) *Bundle {
 					inner = append(inner, exp.Rows[k])
 					k++
 				}
+			}
+			if ragged && i+1 >= len(rows) {
+				// the lone object row is a row of the outer table
+				nested = append(nested, inner...)
+				continue
 			}
 			nested = append(nested, inner)
 		}
